@@ -168,10 +168,7 @@ func runC12(c *Ctx) {
 					if cd.NEv > i || cd.V.K != KAtom {
 						continue
 					}
-					if cd.V.At.Op == "lt" && !cd.V.Neg && cd.V.At.A.equal(d) {
-						okm = true
-					}
-					if cd.V.At.Op == "le" && cd.V.Neg && cd.V.At.A.equal(d.scale(-1)) {
+					if a, ok := ltForm(cd.V); ok && a.equal(d) {
 						okm = true
 					}
 				}
